@@ -100,15 +100,29 @@ func main() {
 	r := ev.Start("C09")
 	defer r.RecoverMain()
 	defer world.Cleanup()
-	r.SetBudget(ev.Pick(r, 120*time.Second, 30*time.Minute))
+	r.SetBudget(ev.Pick(r, 240*time.Second, 60*time.Minute))
 	r.Assume("oracle: when the loop has been idle for 3 iterations the newest own snapshot contains, for every key the application wrote, a version at least as new as the last commit; the forced periodic snapshot is disabled so it cannot mask a lost change; Store may fail up to 2 times in a row (retry budget 3)",
 		"steady state: initial content was written and mirrored by a previous complete sync step; all remote versions are older than anything the application writes, so any change of an application-written key is a violation",
 		"goroutine scheduling follows a fixed policy (background downloads run to completion before the loop continues); the explored choices are the environment's answers: application commits at every loop hook, straddling application transactions, remote snapshot arrival")
 	bound := ev.Pick(r, 2, 3)
+	type part struct {
+		name string
+		cfg  loopworld.Cfg
+	}
+	var parts []part
 	for _, native := range []bool{true, false} {
 		name := map[bool]string{true: "native", false: "shadow"}[native]
-		xrun.Explore(r, "loop-"+name, xrun.Opts{Kind: "x", Bound: bound, Budget: 30, Recycle: 4,
-			Param: loopworld.Cfg{Native: native, Remote2: true, Straddle: true, LoopFirst: r.Thorough(), MaxVisits: 2, StoreFaults: 2}})
+		parts = append(parts, part{"loop-" + name, loopworld.Cfg{Native: native, Remote2: true, NoopRemote: true, Straddle: true, LoopFirst: r.Thorough(), MaxVisits: 2, StoreFaults: 2}})
+	}
+	for _, native := range []bool{true, false} {
+		name := map[bool]string{true: "native", false: "shadow"}[native]
+		// two remote instances whose snapshots wait in the receiver together: one loop iteration merges several snapshots
+		parts = append(parts, part{"loop-" + name + "-two-remotes", loopworld.Cfg{Native: native, Remote2: true, TwoRemotes: true, Straddle: r.Thorough(), LoopFirst: r.Thorough(), MaxVisits: 2}})
+	}
+	for i, p := range parts {
+		restore := r.SubBudget(r.Remaining() / time.Duration(len(parts)-i))
+		xrun.Explore(r, p.name, xrun.Opts{Kind: "x", Bound: bound, Budget: 30, Recycle: 4, Param: p.cfg})
+		restore()
 	}
 	r.Finish()
 }
